@@ -213,6 +213,7 @@ pub fn reg_event(uid: Uid, call: RegCall, ok: bool, injected: bool) {
                         c.edge_pending = fd_ready_for(c);
                         if in_dispatch {
                             c.modified_at = d;
+                            c.rereg_at = d;
                         }
                     }
                 }
@@ -445,9 +446,9 @@ fn check_cause(w: &mut World, uid: Uid, ev: &Ev) {
             let r_ok = !*readable || p & (sysx::POLLIN | sysx::POLLHUP | sysx::POLLERR | sysx::POLLPRI) != 0;
             let w_ok = !*writable || p & (sysx::POLLOUT | sysx::POLLHUP | sysx::POLLERR) != 0;
             let oneshot_unarmed = c.md == Md::OneShot && !c.armed;
-            if !skip {
-                // an event delivered after a re-registration made in this same dispatch was collected
-                // before it: it belongs to the previous arming and does not consume the new one
+            if c.rereg_at != d {
+                // (an event delivered after a re-registration made in this same dispatch was collected
+                // before it: it belongs to the previous arming and does not consume the new one)
                 c.armed = false;
                 c.edge_pending = false;
             }
